@@ -1,7 +1,7 @@
 #!/usr/bin/env python3
 import subprocess,re
 s=open('/verif/DESIGN.md').read()
-for R in ('2','3','4'):
+for R in ('2','3','4','5'):
     t=subprocess.check_output(['/verif/tools/mk_round2_table.py',R]).decode()
     s=re.sub(r'<!-- ROUND%s-TABLE-BEGIN -->.*?<!-- ROUND%s-TABLE-END -->'%(R,R),lambda m:'<!-- ROUND%s-TABLE-BEGIN -->\n'%R+t+'\n<!-- ROUND%s-TABLE-END -->'%R,s,flags=re.S)
 open('/verif/DESIGN.md','w').write(s)
